@@ -111,7 +111,7 @@ def sig_of(r):
     return str(r)
 
 
-def run_check(pid, tier, mod=None, extra_stages=()):
+def run_check(pid, tier, mod=None, extra_stages=(), extra_cov=None):
     """run a whole Engine P check; returns exit code.  extra_stages: callables(ctx) -> dict(updates) run before finishing"""
     from engines.pysym import hook
     t0 = time.time()
@@ -132,6 +132,8 @@ def run_check(pid, tier, mod=None, extra_stages=()):
     extra, ground_bad = None, []
     if hasattr(mod, 'ground_stage'):
         extra, ground_bad = mod.ground_stage()
+    if extra_cov:
+        extra = dict(extra or {}, **extra_cov)
     return finish(pid, tier, mod, results, t0, seed, extra, ground_bad)
 
 
